@@ -47,6 +47,22 @@ BlockTab ==
                 D("POST", <<>>, "", FALSE, "", ""), D("PASTE", <<"@m1">>, "", FALSE, "", "") >>,                 \* needs mac; conflicts with getB? (pb vs PUT pb: no)
    tagrep|-> << D("PATCH", <<"pci">>, "", FALSE, "", ""), D("Tags", <<"@g1", "@g_2", "@g1", "@g1">>, "", FALSE, "", ""),
                 D("RESP", <<"any">>, "", FALSE, "", "200") >>,                                                  \* repeated tag names (needs tag1 tag2)
+   reqT  |-> << D("POST", <<"pz">>, "create", FALSE, "", ""), D("Request", <<"@t1">>, "", FALSE, "", ""),
+                D("RESP", <<"[@t1]">>, "", FALSE, "", "201"), D("RESP", <<"regex">>, "", FALSE, "rx", "400") >>,        \* needs t1
+   bodyT |-> << D("DELETE", <<"pz">>, "", FALSE, "", ""), D("Request", <<>>, "", FALSE, "", ""), D("Body", <<"regex">>, "", FALSE, "rx", ""),
+                D("RESP", <<>>, "gone", FALSE, "", "200"), D("Body", <<"@t1">>, "", FALSE, "", ""),
+                D("RESP", <<>>, "", FALSE, "", "404"), D("Headers", <<>>, "", FALSE, "hdr", ""), D("Body", <<"empty">>, "", FALSE, "", "") >>, \* needs t1
+   qnf   |-> << D("GET", <<"pz">>, "", FALSE, "", ""), D("Query", <<"noFormat">>, "", FALSE, "obj2", ""), D("RESP", <<"any">>, "", FALSE, "", "200") >>,
+   tAny  |-> << D("TYPE", <<"@ta", "any">>, "any type", FALSE, "", ""), D("TYPE", <<"@te", "empty">>, "", FALSE, "", "") >>,
+   srv2  |-> << D("SERVER", <<"@s_2">>, "", FALSE, "", ""), D("BaseUrl", <<"https://y">>, "", FALSE, "", "") >>,
+   infoV |-> << D("INFO", <<>>, "", FALSE, "", ""), D("Version", <<"2">>, "", FALSE, "", "") >>,
+   rpcT  |-> << D("URL", <<"pz">>, "", FALSE, "", ""), D("Protocol", <<"json-rpc-2.0">>, "", FALSE, "", ""),
+                D("Method", <<"m1">>, "", FALSE, "", ""), D("Method", <<"m2">>, "second", FALSE, "", ""), D("Tags", <<"@g_2">>, "", FALSE, "", ""),
+                D("Result", <<>>, "", FALSE, "str", "") >>,                                                           \* needs tag1 tag2
+   pathM |-> << D("GET", <<"paib">>, "", FALSE, "", ""), D("Path", <<>>, "", FALSE, "pid", ""), D("RESP", <<"any">>, "", FALSE, "", "200") >>,  \* Path under a method
+   mac2  |-> << D("MACRO", <<"@m2">>, "", TRUE, "", ""), D("GET", <<>>, "from m2", FALSE, "", ""), D("PASTE", <<"@m1">>, "", FALSE, "", ""), CloseTok,
+                D("URL", <<"pz">>, "", FALSE, "", ""), D("PASTE", <<"@m2">>, "", FALSE, "", "") >>,                        \* nested macros: needs mac
+   enumQ |-> << D("PUT", <<"pz">>, "", FALSE, "", ""), D("Query", <<"c=1">>, "", FALSE, "objen", ""), D("RESP", <<"any">>, "", FALSE, "", "200") >>, \* needs e1
    sim   |-> << D("GET", <<"pax">>, "", FALSE, "", ""), D("RESP", <<"any">>, "", FALSE, "", "200") >>]          \* /a/{x}: similar to /a/{id}
 BlockIds == DOMAIN BlockTab
 
